@@ -282,7 +282,8 @@ def pinned_cases():
     return out
 
 
-DLABELS = ["x", "./x", "a/b", "../esc", ".", "..", "x/", "a//b", ".hid", "..two", "y"]
+DLABELS = ["x", "./x", "a/b", "../esc", ".", "..", "x/", "a//b", ".hid", "..two", "y", "/x", "sub/z", "sub", "x/../y",
+           "sub/../x", "sub/./z"]
 
 
 def option_cases(ctx, script, judge, cov, dist):
@@ -326,7 +327,8 @@ def option_cases(ctx, script, judge, cov, dist):
                 files[os.path.relpath(fp, cd)] = open(fp, "rb").read().decode("latin-1")
         return {"rc": p.returncode, "err": err[-300:], "out": out, "files": files}
 
-    # ---- is F19-DIRZERO repaired?  is F19-DIRLABEL repaired?  (probed: the model mirrors either form)
+    # ---- the model's default is the script since 8474bb4 (`defined $opt_d`); probe for the older truth test (F19-DIRZERO, a
+    # `fixed` finding: `-d 0` is then reported as a VIOLATION).  Is F19-DIRLABEL (open) repaired?  (probed)
     cd = os.path.join(work, "probe0")
     prepare(cd, "0", "dir")
     r0 = observe(cd, ["-d", "0"], inp, "0")
@@ -352,7 +354,7 @@ def option_cases(ctx, script, judge, cov, dist):
                 k += 1
                 prepare(cd, dname, state)
                 ocases.append((flags, dname, state, argv, cd))
-                olines.append("o %d %s %s %s\n" % (fix_d0, flags or "-", "~" if dname is None else (hx(dname) if dname else "-"),
+                olines.append("o %s %s %s %s\n" % ("d" if fix_d0 else "t", flags or "-", "~" if dname is None else (hx(dname) if dname else "-"),
                                                    state))
     answers = ctx.model("dshbak", "".join(olines), args=["model"])
     dist["option_plans"] = {}
@@ -389,6 +391,10 @@ def option_cases(ctx, script, judge, cov, dist):
                 ctx.offender("options:refused-after-writing", "argv %r: exit 1 but files were written: %r" %
                              (argv, sorted(r["files"])[:5]), {"case": case})
             continue
+        if "c" in flags and got.startswith("perfile"):
+            # -c was asked for and is silently dropped: nothing is merged, files are written instead
+            ctx.offender("options:-c-ignored", "argv %r: -c given, but the per-file output ran (%s)" % (argv, sorted(r["files"])[:4]),
+                         {"case": case})
         if wants_files:
             want_files = {t: "".join(l + "\n" for l in ls) for t, ls in lines_of.items()}
             if infiles != want_files:
@@ -409,10 +415,15 @@ def option_cases(ctx, script, judge, cov, dist):
     fl = ctx.model("dshbak", "f %s\n" % ",".join(hx(t) for t in DLABELS), args=["model"])[0]
     plain = {t for t, b in zip(DLABELS, fl) if b == "1"}
     dist["dlabel"] = {"cases": 0, "all-plain": 0, "refused-up-front": 0, "delivered": 0, "violations": 0}
+    tree_cases, tree_lines = [], []
+    rep_bits = int(judge.repaired)
     for ci, labels in enumerate(combos):
         for hseed in (0, 7):
             cd = os.path.join(work, "l%d_%d" % (ci, hseed))
-            os.makedirs(os.path.join(cd, "P", "D"))
+            os.makedirs(os.path.join(cd, "P", "D", "sub"))       # (DIR holds a sub-directory `sub`)
+            if "y" in labels:                                    # (and a file of an earlier run: `>` truncates it)
+                with open(os.path.join(cd, "P", "D", "y"), "w") as fh:
+                    fh.write("stale line of an earlier run\n" * 3)
             lrecs = [(t, "line-%d-%s" % (i, j)) for j in ("a", "b") for i, t in enumerate(labels)]
             data = "".join("%s: %s\n" % r for r in lrecs).encode()
             env["PERL_HASH_SEED"] = str(hseed)
@@ -426,6 +437,15 @@ def option_cases(ctx, script, judge, cov, dist):
             dist["dlabel"]["all-plain"] += allplain
             # what got where: real file (normalised path relative to P) -> content
             got = {os.path.normpath(kf): v for kf, v in r["files"].items()}
+            if allplain or not fix_label:
+                # the order of `keys %lines` is Perl's: ask the same perl, same hash seed, same insertion order, and - like the
+                # script's `my %lines = &process_lines ()` - through a hash built in a sub and copied on return
+                ko = subprocess.run(["perl", "-e", "sub f { my %l = (); push(@{$l{$_}}, 1) for @ARGV; return %l; } my %m = &f (); print join(\"\\n\", keys %m), \"\\n\";"] +
+                                    labels, stdout=subprocess.PIPE, env=env).stdout.decode("latin-1").split("\n")[:-1]
+                tree_cases.append((labels, hseed, r["rc"], got, case, ko))
+                init = ("%s=%s" % (hx("P/D/y"), ",".join([hx("stale line of an earlier run")] * 3))) if "y" in labels else "."
+                tree_lines.append("w %d %s %s %s %s %s %s\n" % (rep_bits, hx("D"), hx("P"), ",".join(hx(x) for x in ("P", "P/D", "P/D/sub")),
+                                                              ",".join(hx(k) for k in ko), hx(data.decode("latin-1")), init))
             bad = None
             if r["rc"] == 0:
                 # every label must have a file of its own, inside D, holding its lines
@@ -446,6 +466,12 @@ def option_cases(ctx, script, judge, cov, dist):
                     dist["dlabel"]["refused-up-front"] += 1
             else:
                 bad = ("crash", "rc=%s %r" % (r["rc"], r["err"][-100:]))
+            if "sub" in labels:
+                # DIR already holds a DIRECTORY of that name: the open fails (EISDIR) and the script says so with exit 1 - an
+                # I/O error outside the property's domain, not a lost line; model correspondence only (tree model below)
+                bad = None
+                dist["dlabel"]["label-names-existing-directory(model only)"] = \
+                    dist["dlabel"].get("label-names-existing-directory(model only)", 0) + 1
             if bad:
                 dist["dlabel"]["violations"] += 1
                 if allplain:
@@ -453,10 +479,29 @@ def option_cases(ctx, script, judge, cov, dist):
                 else:
                     ctx.offender("per-file:label-is-a-path:" + bad[0], bad[1], {"case": case, "files": sorted(got)})
             # correspondence: plain labels -> one file per label (Props/C19 per_file_spec); a repaired script refuses others
-            if allplain and (r["rc"] != 0 or got != {os.path.join("D", t): want[t] for t in labels}):
+            if allplain and "sub" not in labels and (r["rc"] != 0 or got != {os.path.join("D", t): want[t] for t in labels}):
                 ctx.disagreement("dshbak -d vs model (plain labels)", "labels %r: rc=%s files %r" % (labels, r["rc"], sorted(got)), case)
             if not allplain and fix_label and (r["rc"] != 1 or got):
                 ctx.disagreement("dshbak -d vs model (label check)", "labels %r: rc=%s files %r" % (labels, r["rc"], sorted(got)), case)
+    # ---- correspondence with the directory-tree model (Dshbak/DirTree.lean `runWrites`): the exit status and EVERY file
+    # the script leaves behind (which labels share a file and whose lines survive, what lands outside DIR, where the
+    # run ends), for plain and for path labels alike
+    dist["dlabel"]["tree_model_cases"] = len(tree_cases)
+    if tree_lines:
+        answers = ctx.model("dshbak", "".join(tree_lines), args=["model"])
+        for (labels, hseed, rc, got, case, ko), ans in zip(tree_cases, answers):
+            st, _, fl = ans.partition(" ")
+            want = {}
+            if fl and fl != ".":
+                for e in fl.split(";"):
+                    n, _, ls = e.partition("=")
+                    node = bytes.fromhex(n).decode("latin-1")
+                    want[os.path.relpath(node, "P")] = "".join(
+                        ("" if x == "-" else bytes.fromhex(x).decode("latin-1")) + "\n" for x in ([] if ls == "~" else ls.split(",")))
+            wrc = {"ok": 0, "fatal": 1}.get(st)
+            if wrc != rc or want != got:
+                ctx.disagreement("dshbak -d vs Dshbak/DirTree.lean", "labels %r (keys %r): real rc=%s files %r, model %s files %r" %
+                                 (labels, ko, rc, sorted(got.items())[:6], st, sorted(want.items())[:6]), case)
     shutil.rmtree(work, ignore_errors=True)
 
 
